@@ -339,6 +339,12 @@ func forEachTamper(b *Built, v visitFn) {
 		tFelt(v, "hdr.l2gas.wei", &h.L2GasPrice.PriceInWei)
 		tFelt(v, "hdr.l2gas.fri", &h.L2GasPrice.PriceInFri)
 	}
+	if vge(h.ProtocolVersion, 0, 13, 4) {
+		// a >= 0.13.4 block that lacks a price object (the feeder adapter leaves the pointer nil when the JSON
+		// member is absent): must be rejected like any other malformed block
+		v("hdr.l2gasprice.nil", func() { h.L2GasPrice = nil })
+		v("hdr.l1datagasprice.nil", func() { h.L1DataGasPrice = nil })
+	}
 	tFelt(v, "su.blockhash", &su.BlockHash)
 	tFelt(v, "su.newroot", &su.NewRoot)
 	tFelt(v, "su.oldroot", &su.OldRoot)
